@@ -18,7 +18,7 @@ PROPS['C04'] = {
     'packages': ['./tree', './hashmap'],
     'functions': [
         '(*tree.Quartet).Compare', '(*tree.Quartet).HashCode', '(*tree.Quartet).HashEquals',
-        '(*tree.Edge).HashCode',
+        '(*tree.Edge).HashCode', '(*tree.Tree).UpdateTipIndex',
     ],
     'lemma_files': [],
     'trusted_base': TB_COMMON,
@@ -44,7 +44,9 @@ PROPS['C15'] = {
     'claim': 'unbounded proof that CopyNode/CopyEdge produce exact copies (names, ids, lengths, supports, p-values, index fields, node and branch comments element by element) in freshly allocated storage (comment slices and bitsets are not shared with the source) and write nothing else; further C15 functions are added as their contracts discharge',
     'level_note': 'relative to the VC generator, go/ssa, the SMT solvers, the trusted model of fredericlemoine/bitset (Clone returns a fresh object with equal contents)',
     'packages': ['./tree', './hashmap'],
-    'functions': ['(*tree.Tree).CopyNode', '(*tree.Tree).CopyEdge'],
+    'functions': ['(*tree.Tree).CopyNode', '(*tree.Tree).CopyEdge',
+                  ('(*tree.Tree).removeSingleNodesRecur', {'match': [r'^callsite', r'^inv']}),
+                  '(*tree.Node).ParentEdge', '(*tree.Tree).GraftTreeOnTip'],
     'trusted_base': TB_COMMON,
     'assumptions': A_COMMON,
     'not_decided': ['clone structure as a whole (copyTreeRecur), graft/merge/insert transformers: not yet under contract'],
@@ -181,7 +183,7 @@ PROPS['C02'] = {
                   '(*io/newick.Scanner).Scan', '(*io/newick.Parser).scan', '(*io/newick.Parser).unscan', '(*io/newick.Parser).scanIgnoreWhitespace',
                   '(*io/newick.Parser).consumeComment', '(*io/newick.NodeStack).Clear',
                   ('(*io/newick.Parser).parseIter', {'match': [r'^nil', r'^bounds', r'^div0', r'^typeassert', r'^nopanic', r'^decreases', r'^inv', r'^pre\.(?!\(\*tree\.Tree\)\.ConnectNodes)', r'^noexit', r'^post']}),
-                  ('(*io/newick.Parser).Parse', {'match': [r'^nil', r'^bounds', r'^div0', r'^typeassert', r'^nopanic', r'^decreases', r'^inv', r'^pre', r'^noexit']}),
+                  ('(*io/newick.Parser).Parse', {'match': [r'^nil', r'^bounds', r'^div0', r'^typeassert', r'^nopanic', r'^decreases', r'^inv', r'^pre', r'^noexit', r'^post']}),
                   ('(*io/nexus.Parser).Parse', {'match': [r'^nil', r'^bounds', r'^div0', r'^typeassert', r'^nopanic', r'^decreases', r'^inv', r'^pre', r'^noexit']})],
     'trusted_base': TB_COMMON,
     'assumptions': A_COMMON,
@@ -264,7 +266,9 @@ PROPS['C03'] = {
                   ('(*tree.Tree).removeTip', {'match': [r'^return\.when_the_suppressed', r'^inv']}), ('(*tree.Tree).edgesRecur', {'match': [r'^post', r'^inv']}),
                   ('(*tree.Tree).internalEdgesRecur', {'match': [r'^post', r'^inv']}),
                   ('(*tree.Tree).InternalEdges', {'match': [r'^post', r'^inv']}),
-                  '(*tree.Tree).RemoveEdges', '(*tree.Tree).unconnectNode'],
+                  '(*tree.Tree).RemoveEdges', '(*tree.Tree).unconnectNode',
+                  ('(*tree.Tree).removeSingleNodesRecur', {'match': [r'^callsite', r'^inv']}),
+                  '(*tree.Node).ParentEdge', '(*tree.Tree).GraftTreeOnTip'],
     'trusted_base': TB_COMMON,
     'assumptions': A_COMMON,
     'not_decided': ['acyclicity / connectivity after each surgery (A-GRAPH: lemmas L1-L9)', 'counting clauses (branches = nodes - 1; all = internal + external)', 'global symmetric adjacency as a quantified invariant'],
